@@ -15,14 +15,14 @@ CLAIMS = {
         text='Deductive proof (Verus) of the real text of the operator DISPATCH layer and the map-free leaves: Add for Function and Mul for Function (all 16 operand-kind pairs: result holds a kind able to carry every term, ids within the operands\' ids, value = sum / product of the operand polynomials minus an explicit epsilon-drop remainder defined per arm), '
              'Add<f64>/Mul<f64> for Linear, Add<f64>/Mul<f64> for Quadratic, Mul<f64> for Polynomial (exact, remainder 0, including the `* 0` short cut), Zero::zero/is_zero, the From conversions into Function, '
              'and the MACRO layer of macros.rs at the Function level (every instance of impl_add_from / impl_add_inverse / impl_mul_from / impl_mul_inverse / impl_sub_by_neg_add in v1_ext/function.rs and impl_neg_by_mul for Function, Linear, Quadratic, Polynomial: each expanded mechanically from the macro definition and proved to compute the sum / product / exact negation / difference of its operands through the dispatch contracts).',
-        note=A1 + 'Linear + Linear, Linear::new, Linear * Linear, Quadratic + Linear, Quadratic + Quadratic, Quadratic::quad_iter, FromIterator<((u64,u64),f64)> for Quadratic and the typed macro instances f64 + Linear, f64 * Linear, Linear - f64, Linear + Quadratic, f64 + Quadratic, f64 * Quadratic are PROVED from the real text; the map-merge ones through the BTreeMap entry API (std contracts of entry/or_default/or_insert/remove/into_iter, prophecy-style): the result is exactly the specified merge (accumulate equal ids or id pairs, drop an entry when |sum| <= EPSILON; FromIterator: last value per pair wins), its remainder is defined as the difference to that merge. Precondition (observation): Quadratic operands are well-formed COO (rows, columns, values of equal length: quad_iter asserts it). Linear * Linear: the quadratic part is exactly the product of the two term lists (nested accumulation loop, nothing dropped), the linear part self*r + c*rhs - r*c is decided through the typed operator contracts, so its remainder is the remainder of that one Linear + Linear. Polynomial + Polynomial is proved as well (map keyed by id lists: model type VMap, rule R28; remainder defined as the difference to the specified merge), and so is the chain behind Polynomial * Polynomial: SortedIds::new / into_inner / Add for SortedIds (sorted form of a list, unique: lemma_sorted_perm_eq), the term iterator of &Polynomial (R22), FromIterator<(SortedIds, f64)> for Polynomial (epsilon-dropping collect = kacc of the items) and Mul for Polynomial - the two loops build the EXACT product under canonical keys (ghost map pmat; the weight of an id list is order-independent: lemma_mono_perm), the remainder is what the final collect drops (entries with |v| <= EPSILON). PARTIAL: the other BTreeMap-merge leaves (Quadratic*Linear, Quadratic*Quadratic, Polynomial + f64/Linear/Quadratic - which upcast through the term iterators of Linear / Quadratic - and the products with a Quadratic or Linear operand) are ASSUMED contracts with an uninterpreted epsilon-drop remainder; the typed macro instances of polynomial.rs (f64/Linear/Quadratic + Polynomial, f64/Linear/Quadratic * Polynomial) and Linear * Quadratic are proved to delegate to those leaves with the operands swapped. The DecisionVariable and Parameter operand families (parameter.rs, v1_ext/decision_variable.rs: From<&P> for Linear, every instance of impl_add_parameter / impl_mul_parameter / impl_add_decision_variable / impl_mul_decision_variable - both operand orders - and the eight hand-written impls between two variables/parameters) are PROVED to compute the typed operator applied to the linear function 1.0 * x_id (existentially named operand `var_lin`). The typed differences (impl_sub_by_neg_add! for Linear - Linear, Quadratic - Linear / f64 / Quadratic, Polynomial - Polynomial) are proved to be the sum with an exact negation of the right operand, and Neg for &DecisionVariable the exact negation of 1.0 * x_id. Still covered only by the bounded stand-in: the term iterators, the From<&P> conversions into Quadratic/Polynomial/Function, the Sum impls (iterator fold).',
+        note=A1 + 'Linear + Linear, Linear::new, Linear * Linear, Quadratic + Linear, Quadratic + Quadratic, Quadratic::quad_iter, FromIterator<((u64,u64),f64)> for Quadratic and the typed macro instances f64 + Linear, f64 * Linear, Linear - f64, Linear + Quadratic, f64 + Quadratic, f64 * Quadratic are PROVED from the real text; the map-merge ones through the BTreeMap entry API (std contracts of entry/or_default/or_insert/remove/into_iter, prophecy-style): the result is exactly the specified merge (accumulate equal ids or id pairs, drop an entry when |sum| <= EPSILON; FromIterator: last value per pair wins), its remainder is defined as the difference to that merge. Precondition (observation): Quadratic operands are well-formed COO (rows, columns, values of equal length: quad_iter asserts it). Linear * Linear: the quadratic part is exactly the product of the two term lists (nested accumulation loop, nothing dropped), the linear part self*r + c*rhs - r*c is decided through the typed operator contracts, so its remainder is the remainder of that one Linear + Linear. Polynomial + Polynomial is proved as well (map keyed by id lists: model type VMap, rule R28; remainder defined as the difference to the specified merge), and so is the chain behind Polynomial * Polynomial: SortedIds::new / into_inner / Add for SortedIds (sorted form of a list, unique: lemma_sorted_perm_eq), the term iterator of &Polynomial (R22), FromIterator<(SortedIds, f64)> for Polynomial (epsilon-dropping collect = kacc of the items) and Mul for Polynomial - the two loops build the EXACT product under canonical keys (ghost map pmat; the weight of an id list is order-independent: lemma_mono_perm), the remainder is what the final collect drops (entries with |v| <= EPSILON). PARTIAL: the other BTreeMap-merge leaves (Quadratic*Linear, Quadratic*Quadratic, Polynomial + f64/Linear/Quadratic - which upcast through the term iterators of Linear / Quadratic - and the products with a Quadratic or Linear operand) are ASSUMED contracts with an uninterpreted epsilon-drop remainder; the typed macro instances of polynomial.rs (f64/Linear/Quadratic + Polynomial, f64/Linear/Quadratic * Polynomial) and Linear * Quadratic are proved to delegate to those leaves with the operands swapped. The DecisionVariable and Parameter operand families (parameter.rs, v1_ext/decision_variable.rs: From<&P> for Linear, every instance of impl_add_parameter / impl_mul_parameter / impl_add_decision_variable / impl_mul_decision_variable - both operand orders - and the eight hand-written impls between two variables/parameters) are PROVED to compute the typed operator applied to the linear function 1.0 * x_id (existentially named operand `var_lin`). The typed differences (impl_sub_by_neg_add! for Linear - Linear, Quadratic - Linear / f64 / Quadratic, Polynomial - Polynomial) are proved to be the sum with an exact negation of the right operand, and Neg for &DecisionVariable the exact negation of 1.0 * x_id. Still covered only by the bounded stand-in: the term iterators, the From<&P> conversions into Quadratic/Polynomial/Function, the Sum impls (iterator fold). ROUND 3 (this session): the term iterators of &Linear / &Quadratic / &Function (rule R31: iterator pipelines instantiated at Vec, one std helper contract per adapter), FromIterator<u64> / From<Option<u64>> for SortedIds, the upcasts From<f64|Linear|Quadratic> for Polynomial (the result lists a map: one monomial per key, sorted keys), and with them every remaining operator: Polynomial + f64/Linear/Quadratic and Polynomial * Linear/Quadratic (macro instances self OP Polynomial::from(rhs); the merge / the product map does not depend on the order in which the upcast lists its keys: lemma_kacc_listing_from, lemma_gmat_listing), Quadratic * Quadratic (the product loops over item lists) and Quadratic * Linear (exact upcast). NO operator contract of C02 is assumed any more; assumed are std helper contracts only (BTreeMap entry API, sort_unstable, R31 helpers).',
         technique='contract-based deductive verification (Verus) of mechanically extracted Rust functions; value contracts with explicit remainders; contracts generated from a table of operand kinds',
         ref='DESIGN 6 C02'),
     'C16': dict(
         text='Deductive proof (Verus, unbounded, all inputs) that every function of bound.rs extracted from the working tree satisfies its contract: '
              'type invariant wf preserved, no unwrap() panics, and the enclosure postconditions forall x in a, y in b: x+y in a+b, x*y in a*b, '
-             'x^n in a.pow(n), c*x in c*a, integer rounding keeps every integer.',
-        note=A1 + 'content_factor minimality is not covered.',
+             'x^n in a.pow(n), c*x in c*a, integer rounding keeps every integer; and Function::evaluate_bound together with the term iterators it folds over (IntoIterator for &Function / &Linear / &Quadratic / &Polynomial: verified units of this check, rule R31): the returned interval contains the value of the function at every point of the box.',
+        note=A1 + 'ASSUMED: SortedIds::chunks (itertools chunk_by) and is_empty (Deref to a slice). content_factor minimality is not covered.',
         technique='contract-based deductive verification (Verus) of mechanically extracted Rust functions; F64 ideal-arithmetic model',
         ref='DESIGN 6 C16'),
     'C01': dict(
@@ -51,7 +51,7 @@ CLAIMS = {
              'ghost lemma lemma_substitute_value: its value at every assignment m equals the ORIGINAL evaluated at the state in which each replaced variable holds the value of its replacement at m (replacements may mention replaced variables: simultaneous substitution), minus an explicit accumulated epsilon-drop remainder of the operator calls; '
              '(b) Instance::substitute: objective, every active and every removed constraint and every existing dependency function are replaced by their substitution, every replacement is recorded in decision_variable_dependency, everything else framed; '
              '(c) eval_dependencies: it TERMINATES (decreases on the retry loop: no hang on cyclic or unsatisfiable dependencies), returns Ok only when every dependent variable received a value (no partial answer), leaves non-dependent given values untouched, and every dependent variable equals its defining function evaluated at the final state, through chains, for EVERY iteration order of the HashMap. Carried into Instance::evaluate in C05.',
-        note=A1 + 'ASSUMED callee contracts of Function::substitute: Function+Function, Function*Function, Function*Linear (pure, value up to an explicit remainder: C02), the term iterator of &Function (axioms ax_fn_terms), Function::zero, From<f64>, Linear::single_term; of Instance::substitute: the HashMap::iter_mut loop over the dependency functions and HashMap::extend as helpers. Precondition (observation): replacement functions have their oneof set (the operators panic otherwise). The contract of Function::substitute pins the operator order of the code: a refactoring that reorders operator applications is outside the sidecar (lost anchor -> bounded stand-in).',
+        note=A1 + 'ASSUMED callee contracts of Function::substitute: Function+Function, Function*Function, Function*Linear (pure, value up to an explicit remainder: C02), the purity naming of the term list (name_terms: the list the term iterator yields is a function of the message; the term iterators themselves are verified units of this check (R31), and the former axioms are lemmas over their proved contract), Function::zero, From<f64>, Linear::single_term; of Instance::substitute: the HashMap::iter_mut loop over the dependency functions and HashMap::extend as helpers. Precondition (observation): replacement functions have their oneof set (the operators panic otherwise). The contract of Function::substitute pins the operator order of the code: a refactoring that reorders operator applications is outside the sidecar (lost anchor -> bounded stand-in).',
         technique='contract-based deductive verification (Verus) of mechanically extracted Rust functions; ghost trace (sequences of factor functions) as existential witness; termination by decreases; value lemmas by induction',
         ref='DESIGN 6 C04'),
     'C03': dict(
@@ -100,14 +100,14 @@ CLAIMS = {
         text='Deductive proof (Verus) of the real text of (A) Instance::validate / validate_decision_variable_ids / validate_constraint_ids / used_decision_variable_ids / defined_ids and ParametricInstance::validate* - each succeeds EXACTLY when the ids are (jointly) unique and every used id is defined - '
              'and (B) the whole typed parse layer: trait Parse with its default method parse_as, the Parse impls for Kind, Equality, Sense, Function, Bound, DecisionVariable, Vec<DecisionVariable>, Constraint, RemovedConstraint, Vec<Constraint>, Vec<RemovedConstraint>, OneHot, Sos1, ConstraintHints, as_variable_id/as_constraint_id and TryFrom<v1::Instance>: '
              'each parse succeeds exactly when its rule holds, the typed value carries the same content (unset bound = unbounded, [0,1] for binaries), and every error is the violated rule with the (message, field) path appended innermost-first.',
-        note='Assumes the extraction rules (string literals become opaque tags; `?` error conversions made explicit), Verus+Z3, the key models of the id newtypes, std helper contracts (iterator collect, HashMap iteration order universally quantified), and ASSUMED used-id leaves for Quadratic/Polynomial. KNOWN FINDING D7 (listed in known_findings.txt): TryFrom<v1::Instance> does not check that used variable ids are defined. Defect D3 (unset bound became [0,0]) was found by this check and repaired in /repo.',
+        note='Assumes the extraction rules (string literals become opaque tags; `?` error conversions made explicit), Verus+Z3, the key models of the id newtypes, std helper contracts (iterator collect, HashMap iteration order universally quantified), (the used-id collects of Quadratic / Polynomial are verified units too: R31 with cloned / flat_map). KNOWN FINDING D7 (listed in known_findings.txt): TryFrom<v1::Instance> does not check that used variable ids are defined. Defect D3 (unset bound became [0,0]) was found by this check and repaired in /repo.',
         technique='contract-based deductive verification (Verus) of mechanically extracted Rust functions; trait-level ghost contract functions (p_ok/p_out/p_err) with a generically verified default method',
         ref='DESIGN 6 C08'),
     'C11': dict(
         text='Deductive proof (Verus) of the real text of Instance::as_pubo_format / as_qubo_format, From<SortedIds> for BinaryIds and TryFrom<Vec<u64>> / TryFrom<SortedIds> for BinaryIdPair (Ok exactly for one or two distinct ids, canonical pair over exactly those ids; slice-pattern match by rule R29): export is refused exactly when active constraints remain, the sense is maximisation or a used variable is not a defined binary (PUBO: Err iff one of these); '
              'keys are canonical (sets of ids / pairs i<=j over ids of the objective, x^k = x) and no stored coefficient is numerically zero; the exported dictionary / matrix+offset IS the specified accumulation of the objective\'s term list (skip |c| <= EPSILON, key, accumulate, remove an entry whose sum became numerically zero) - loop invariant over the BTreeMap - '
              'and ghost lemmas lemma_pubo_value / lemma_qubo_value (induction, map-sum spec): sum_S c_S prod_{i in S} x_i = objective(x) and sum_{i<=j} Q_ij x_i x_j + offset = objective(x) for EVERY 0/1 assignment, minus an explicit remainder (the skipped and removed numerically-zero parts).',
-        note=A1 + 'ASSUMED: the term iterator of &Function (its list is a function of the message, sorted id tuples over the function ids, terms sum to the polynomial: fterms, ax_fterms_sum), binary_ids, used ids, slice::sort_unstable + Vec::dedup as one std helper, the accumulate idiom entry().and_modify().or_insert() as a helper, BinaryIds determined by its set (ax_binary_ids_ext). The size of the remainder is not bounded here.',
+        note=A1 + 'The term iterators of &Function / &Linear / &Quadratic / &Polynomial and used_decision_variable_ids of every kind are verified units of this check (R31); lemma_pubo_objective / lemma_qubo_objective state the identity in terms of the objective itself. ASSUMED: the purity naming of the term list (fterms: the list yielded for a message is a function of the message), binary_ids (prost getter kind()), slice::sort_unstable + Vec::dedup as one std helper, the accumulate idiom entry().and_modify().or_insert() as a helper, BinaryIds determined by its set (ax_binary_ids_ext). The size of the remainder is not bounded here.',
         technique='contract-based deductive verification (Verus) of mechanically extracted Rust functions; accumulation specified as a function of the term list; map-sum spec with permutation lemma; inductive value lemmas',
         ref='DESIGN 6 C11'),
     'C17': dict(
